@@ -3,9 +3,6 @@ From HV Require Import Lattice.Model Lattice.PSet Lattice.PMapBase Lattice.UF.
 From Coq Require Import PeanoNat ZifyBool ZifyN.
 
 (* ================================================================== parent maps as forests *)
-(* an item without an entry is its own root *)
-Definition par (s : uf) (x : N) : N := match get x s with Some p => p | None => x end.
-
 (* the path from x up to its root r; l lists the non-root nodes on it, starting with x *)
 Inductive RootP (s : uf) : N -> N -> list N -> Prop :=
 | RP0 r : par s r = r -> RootP s r r []
@@ -684,4 +681,417 @@ Proof.
   inversion H2 as [r' Hr'|x3 p3 r3 l3 Hp3 Hn3 H3]; subst; [cbv in Hr'; discriminate|].
   inversion H3 as [r' Hr'|x4 p4 r4 l4 Hp4 Hn4 H4]; subst; [cbv in Hr'; discriminate|].
   cbn in Hl. lia.
+Qed.
+
+(* ================================================================== LatLaws for union-find *)
+From HV Require Import Lattice.Ord.
+
+Lemma piter_root s x r l : RootP s x r l -> forall n, length l <= n -> piter n s x = r.
+Proof.
+  induction 1 as [r Hr|x p r l Hp Hne Hr IH]; intros n Hn.
+  - clear Hn. induction n as [|n IHn]; [reflexivity|]. cbn [piter]. rewrite Hr. exact IHn.
+  - destruct n as [|n]; [cbn in Hn; lia|]. cbn [piter]. rewrite Hp. apply IH. cbn in Hn. lia.
+Qed.
+
+Lemma piter_rt n : forall s x, par s (piter n s x) = piter n s x -> Rt s x (piter n s x).
+Proof.
+  induction n as [|n IH]; intros s x Hx; cbn [piter] in *.
+  - exists []. constructor. exact Hx.
+  - apply rt_step with (p := par s x); [reflexivity|]. apply IH, Hx.
+Qed.
+
+Lemma forestb_spec s : forestb s = true <-> forest s.
+Proof.
+  unfold forestb. rewrite forallb_forall. split.
+  - intros Hall x. destruct (get x s) as [p|] eqn:G.
+    + assert (Hk : In x (keys s)) by (apply get_In in G; apply (in_map fst) in G; exact G).
+      specialize (Hall x Hk). cbv zeta in Hall. apply N.eqb_eq in Hall.
+      eexists. apply piter_rt. exact Hall.
+    + exists x, []. constructor. unfold par. rewrite G. reflexivity.
+  - intros F k _. cbv zeta. apply N.eqb_eq. destruct (F k) as [r [l H]].
+    rewrite (piter_root s k r l H (length s) (rootp_len _ _ _ _ H)).
+    exact (rootp_root _ _ _ _ H).
+Qed.
+
+Definition UW (s : uf) : Prop := forest s /\ NoDup (keys s).
+
+Lemma uf_wf_spec s : uf_wf s = true <-> UW s.
+Proof. unfold uf_wf, UW. rewrite andb_true_iff, forestb_spec, nodupb_NoDup. tauto. Qed.
+
+Lemma uw_inv s : UW s -> Inv s s.
+Proof.
+  intros [F Nk]. split; [exact F|]. split; [exact Nk|]. intros x y. symmetry.
+  apply entries_closure; assumption.
+Qed.
+
+(* partition refinement *)
+Definition refines (a b : uf) : Prop := forall x y, SameRoot a x y -> SameRoot b x y.
+
+Lemma refines_entries a b : UW a -> forest b ->
+  (refines a b <-> forall i p, In (i, p) a -> SameRoot b i p).
+Proof.
+  intros [Fa Nka] Fb. split.
+  - intros R i p Hi. apply R, (entries_closure a Fa Nka), ec_base, Hi.
+  - intros Hall x y H. apply (entries_closure a Fa Nka) in H. revert x y H. apply eqcl_mono.
+    + exact Hall.
+    + intros u. apply sameroot_refl, Fb.
+    + apply sameroot_sym.
+    + apply sameroot_trans.
+Qed.
+
+Lemma pres_uw s s' : UW s -> pres s s' -> UW s'.
+Proof. intros [F Nk] P. split; [exact (pres_forest _ _ F P)|rewrite (proj1 P); exact Nk]. Qed.
+
+Lemma refines_pres_l a a' b : forest a -> pres a a' -> (refines a' b <-> refines a b).
+Proof.
+  intros F P. unfold refines. split; intros R x y H; apply R.
+  - apply (pres_same a a' F P), H.
+  - apply (pres_same a a' F P), H.
+Qed.
+
+(* partial_cmp: the two flags are the two refinement tests *)
+Lemma pcmp_spec a b : UW a -> UW b ->
+  exists a' b' g1 g2, pcmp a b = Ok (a', b',
+      match g1, g2 with
+      | true, true => None | true, false => Some Gt | false, true => Some Lt | false, false => Some Eq
+      end) /\
+    (g1 = false <-> refines a b) /\ (g2 = false <-> refines b a).
+Proof.
+  intros Wa Wb. unfold pcmp.
+  destruct (any_not_same_ok a b (proj1 Wb)) as [b' [g1 [E1 [P1 G1]]]]. rewrite E1. cbn [bind fst snd].
+  destruct (any_not_same_ok b' a (proj1 Wa)) as [a' [g2 [E2 [P2 G2]]]]. rewrite E2. cbn [bind fst snd].
+  exists a', b', g1, g2. split; [reflexivity|]. split.
+  - rewrite G1. symmetry. apply refines_entries; [exact Wa|exact (proj1 Wb)].
+  - rewrite G2. rewrite <- (refines_entries b' a (pres_uw _ _ Wb P1) (proj1 Wa)).
+    apply refines_pres_l; [exact (proj1 Wb)|exact P1].
+Qed.
+
+Lemma peq_spec a b : UW a -> UW b ->
+  exists a' b' e, peq a b = Ok (a', b', e) /\ (e = true <-> refines a b /\ refines b a).
+Proof.
+  intros Wa Wb. unfold peq.
+  destruct (any_not_same_ok a b (proj1 Wb)) as [b' [g1 [E1 [P1 G1]]]]. rewrite E1. cbn [bind fst snd].
+  assert (R1 : g1 = false <-> refines a b).
+  { rewrite G1. symmetry. apply refines_entries; [exact Wa|exact (proj1 Wb)]. }
+  destruct g1.
+  - exists a, b', false. split; [reflexivity|]. split; [discriminate|].
+    intros [R _]. apply R1 in R. discriminate.
+  - destruct (any_not_same_ok b' a (proj1 Wa)) as [a' [g2 [E2 [P2 G2]]]]. rewrite E2. cbn [bind fst snd].
+    assert (R2 : g2 = false <-> refines b a).
+    { rewrite G2. rewrite <- (refines_entries b' a (pres_uw _ _ Wb P1) (proj1 Wa)).
+      apply refines_pres_l; [exact (proj1 Wb)|exact P1]. }
+    exists a', b', (negb g2). split; [reflexivity|]. rewrite negb_true_iff, R2.
+    split; [intros H; split; [apply R1; reflexivity|exact H]|tauto].
+Qed.
+
+Lemma merge_spec a b : UW a -> UW b ->
+  exists s' f, merge a b = Ok (s', f) /\ UW s' /\
+    (forall x y, SameRoot s' x y <-> PJoin (SameRoot a) (SameRoot b) x y) /\
+    (f = false <-> refines b a).
+Proof.
+  intros Wa Wb.
+  destruct (merge_is_join a b a b (uw_inv a Wa) (uw_inv b Wb)) as [s' [f [E [F [Nk [J Fl]]]]]].
+  exists s', f. split; [exact E|]. split; [split; assumption|]. split; [exact J|exact Fl].
+Qed.
+
+Lemma pjoin_lub a b c : forest c -> refines a c -> refines b c ->
+  forall x y, PJoin (SameRoot a) (SameRoot b) x y -> SameRoot c x y.
+Proof.
+  intros Fc Ra Rb x y H. induction H as [x y H|x y H|x y H IH|x y z H1 IH1 H2 IH2].
+  - apply Ra, H.
+  - apply Rb, H.
+  - apply sameroot_sym, IH.
+  - eapply sameroot_trans; eassumption.
+Qed.
+
+Lemma isbot_spec a : UW a -> (uf_isbot a = true <-> forall x y, SameRoot a x y -> x = y).
+Proof.
+  intros [F Nk]. unfold uf_isbot. rewrite forallb_forall. split.
+  - intros Hall.
+    assert (P : forall x, par a x = x).
+    { intros x. unfold par. destruct (get x a) as [p|] eqn:G; [|reflexivity].
+      apply get_In in G. specialize (Hall _ G). cbn in Hall. apply N.eqb_eq in Hall. auto. }
+    assert (R : forall x r, Rt a x r -> r = x).
+    { intros x r H. apply (rt_det a x); [exact H|]. exists []. constructor. apply P. }
+    intros x y [r [H1 H2]]. rewrite <- (R _ _ H1), <- (R _ _ H2). reflexivity.
+  - intros Hall [k p] Hi. cbn. apply N.eqb_eq. apply Hall.
+    apply (entries_closure a F Nk), ec_base, Hi.
+Qed.
+
+Local Ltac unu := unfold W, E, Le, m, ch in *;
+  cbn [wf mrg cmp eqb isbot istop uf_ops] in *.
+
+Lemma uf_ord : OrdLaws uf_ops refines.
+Proof.
+  split; unu.
+  - intros a _ x y H. exact H.
+  - intros a b c _ _ _ R1 R2 x y H. apply R2, R1, H.
+  - intros a b Wa Wb. apply uf_wf_spec in Wa, Wb.
+    destruct (peq_spec a b Wa Wb) as [a' [b' [e [E Sp]]]]. rewrite E. cbn [snd]. exact Sp.
+  - intros a b Wa Wb. apply uf_wf_spec in Wa, Wb.
+    destruct (merge_spec a b Wa Wb) as [s' [f [E [Ws _]]]]. rewrite E. cbn [fst]. apply uf_wf_spec, Ws.
+  - intros a b Wa Wb. apply uf_wf_spec in Wa, Wb.
+    destruct (merge_spec a b Wa Wb) as [s' [f [E [_ [J _]]]]]. rewrite E. cbn [fst].
+    intros x y H. apply J, pj_l, H.
+  - intros a b Wa Wb. apply uf_wf_spec in Wa, Wb.
+    destruct (merge_spec a b Wa Wb) as [s' [f [E [_ [J _]]]]]. rewrite E. cbn [fst].
+    intros x y H. apply J, pj_r, H.
+  - intros a b c Wa Wb Wc R1 R2. apply uf_wf_spec in Wa, Wb, Wc.
+    destruct (merge_spec a b Wa Wb) as [s' [f [E [_ [J _]]]]]. rewrite E. cbn [fst].
+    intros x y H. apply J in H. exact (pjoin_lub a b c (proj1 Wc) R1 R2 x y H).
+  - intros a b Wa Wb. apply uf_wf_spec in Wa, Wb.
+    destruct (merge_spec a b Wa Wb) as [s' [f [E [_ [_ Fl]]]]]. rewrite E. cbn [snd]. exact Fl.
+  - intros a b Wa Wb. apply uf_wf_spec in Wa, Wb.
+    destruct (merge_spec a b Wa Wb) as [s1 [f1 [E1 [_ [_ Fl1]]]]].
+    destruct (merge_spec b a Wb Wa) as [s2 [f2 [E2 [_ [_ Fl2]]]]].
+    destruct (pcmp_spec a b Wa Wb) as [a' [b' [g1 [g2 [E [G1 G2]]]]]].
+    rewrite E, E1, E2. cbn [snd].
+    (* f1 = false <-> refines b a <-> g2 = false ; f2 = false <-> refines a b <-> g1 = false *)
+    assert (Q1 : f1 = g2) by (destruct f1, g2; intuition congruence).
+    assert (Q2 : f2 = g1) by (destruct f2, g1; intuition congruence).
+    subst. destruct g1, g2; reflexivity.
+  - intros a Wa. apply uf_wf_spec in Wa. rewrite (isbot_spec a Wa). split.
+    + intros B b Wb x y H. apply uf_wf_spec in Wb. rewrite <- (B x y H). apply sameroot_refl, (proj1 Wb).
+    + intros B x y H. specialize (B [] Logic.eq_refl x y H).
+      destruct B as [r [H1 H2]].
+      assert (R0 : forall z, Rt [] z z) by (intros z; exists []; constructor; reflexivity).
+      rewrite (rt_det _ _ _ _ (R0 x) H1), (rt_det _ _ _ _ (R0 y) H2). reflexivity.
+  - exists []. reflexivity.
+Qed.
+
+Theorem uf_laws : LatLaws uf_ops.
+Proof. exact (ord_laws uf_ord). Qed.
+
+(* the lattice order of union-find IS partition refinement *)
+Lemma uf_le_refines a b : W uf_ops a -> W uf_ops b -> (Le uf_ops a b <-> refines a b).
+Proof. apply (o_Le_iff uf_ord). Qed.
+
+(* is_top is constantly false, rightly: two fresh items can always still be united *)
+Lemma uf_toplaw : TopLaw uf_ops.
+Proof.
+  intros a Wa. cbn [istop uf_ops]. split; [discriminate|]. intros T. exfalso.
+  pose proof Wa as Wa'. apply uf_wf_spec in Wa'. destruct Wa' as [F Nk].
+  set (z := (1 + fold_right N.add 0 (keys a))%N).
+  assert (Hle : forall l x, In x l -> (x <= fold_right N.add 0 l)%N).
+  { induction l as [|y r IH]; cbn; intros x [].
+    - subst. lia.
+    - specialize (IH x H). lia. }
+  assert (Hz : forall k, (z <= k)%N -> get k a = None).
+  { intros k Hk. apply get_None. intros Hi. apply Hle in Hi. unfold z in Hk. lia. }
+  (* z and z+1 are fresh, hence their own roots in a; the value {z+1 -> z} unites them *)
+  assert (Wb : W uf_ops [((z + 1)%N, z)]).
+  { apply uf_wf_spec. split; [|repeat constructor; intros []].
+    apply forestb_spec. unfold forestb. cbn. unfold par. cbn.
+    destruct (N.eqb_spec (z + 1) (z + 1)) as [_|Hn]; [|congruence].
+    cbn. destruct (N.eqb_spec z (z + 1)) as [Hq|_]; [lia|]. cbn.
+    rewrite N.eqb_refl. reflexivity. }
+  specialize (T _ Wb). apply (uf_le_refines _ _ Wb Wa) in T.
+  assert (S1 : SameRoot [((z + 1)%N, z)] (z + 1) z).
+  { exists z. split.
+    - apply rt_step with (p := z).
+      + unfold par. cbn. rewrite N.eqb_refl. reflexivity.
+      + exists []. constructor. unfold par. cbn. destruct (N.eqb_spec z (z + 1)); [lia|reflexivity].
+    - exists []. constructor. unfold par. cbn. destruct (N.eqb_spec z (z + 1)); [lia|reflexivity]. }
+  apply T in S1. destruct S1 as [r [H1 H2]].
+  assert (R : forall k, (z <= k)%N -> Rt a k k).
+  { intros k Hk. exists []. constructor. unfold par. rewrite (Hz k Hk). reflexivity. }
+  pose proof (rt_det _ _ _ _ H1 (R (z + 1)%N ltac:(lia))).
+  pose proof (rt_det _ _ _ _ H2 (R z ltac:(lia))). lia.
+Qed.
+
+(* ================================================================== pure cycles, any length
+   x0 -> x1 -> ... -> x(k-1) -> x0 with distinct items, k >= 2 (the repo's test_malformed shape).
+   Not a forest, yet find terminates: the first loop stops at x(k-1) thanks to the
+   `parent == item` guard and makes it the representative; the second loop points everybody
+   at it. *)
+Fixpoint Chain (s : uf) (l : list N) (t : N) : Prop :=
+  match l with
+  | [] => True
+  | y :: r => match r with
+              | [] => get y s = Some t
+              | z :: _ => get y s = Some z /\ Chain s r t
+              end
+  end.
+
+Fixpoint lst (y : N) (r : list N) : N := match r with [] => y | z :: r' => lst z r' end.
+Fixpoint allbut (y : N) (r : list N) : list N :=
+  match r with [] => [] | z :: r' => y :: allbut z r' end.
+
+Lemma lst_in r : forall y, In (lst y r) (y :: r).
+Proof. induction r as [|z r IH]; intros y; cbn [lst]; [left; reflexivity|right; apply IH]. Qed.
+
+Lemma allbut_in r : forall y w, In w (allbut y r) -> In w (y :: r).
+Proof.
+  induction r as [|z r IH]; intros y w; cbn [allbut]; [intros []|].
+  intros [<-|Hw]; [left; reflexivity|right; apply IH, Hw].
+Qed.
+
+Lemma allbut_or_lst r : forall y w, In w (y :: r) -> In w (allbut y r) \/ w = lst y r.
+Proof.
+  induction r as [|z r IH]; intros y w Hw; cbn [allbut lst].
+  - destruct Hw as [<-|[]]. right. reflexivity.
+  - destruct Hw as [<-|Hw]; [left; left; reflexivity|].
+    destruct (IH z w Hw); [left; right; assumption|right; assumption].
+Qed.
+
+Lemma chain_has_entry s l t : Chain s l t -> forall w, In w l -> get w s <> None.
+Proof.
+  induction l as [|y r IH]; intros C w Hw; [destruct Hw|].
+  cbn [Chain] in C. destruct r as [|z r'].
+  - destruct Hw as [<-|[]]. congruence.
+  - destruct C as [G C]. destruct Hw as [<-|Hw]; [congruence|]. apply IH; assumption.
+Qed.
+
+Lemma chain_set_other s l t y v : ~ In y l -> Chain s l t -> Chain (set_at y v s) l t.
+Proof.
+  induction l as [|w r IH]; intros Hn C; [exact I|].
+  cbn [Chain] in *. assert (Hwy : N.eqb w y = false).
+  { apply N.eqb_neq. intros ->. apply Hn. left. reflexivity. }
+  destruct r as [|z r'].
+  - rewrite get_set_at, Hwy. exact C.
+  - destruct C as [G C]. split; [rewrite get_set_at, Hwy; exact G|].
+    apply IH; [|exact C]. intros Hi. apply Hn. right. exact Hi.
+Qed.
+
+(* first loop, from inside the cycle *)
+Lemma find_root_cycle s x0 r : forall y fuel, Chain s (y :: r) x0 -> ~ In x0 (y :: r) ->
+  NoDup (y :: r) -> length (y :: r) <= fuel ->
+  find_root fuel s x0 y = Ok (lst y r, set_at (lst y r) (lst y r) s).
+Proof.
+  induction r as [|z r IH]; intros y fuel C Hx Nd Hf.
+  - destruct fuel as [|f]; [cbn in Hf; lia|]. cbn [Chain] in C. cbn [find_root lst]. rewrite C.
+    destruct (N.eqb_spec x0 y) as [->|_]; [exfalso; apply Hx; left; reflexivity|].
+    rewrite N.eqb_refl. reflexivity.
+  - destruct fuel as [|f]; [cbn in Hf; lia|]. cbn [Chain] in C. destruct C as [G C].
+    cbn [find_root lst]. rewrite G. inversion Nd as [|? ? Hy Nd']; subst.
+    destruct (N.eqb_spec z y) as [->|_]; [exfalso; apply Hy; left; reflexivity|].
+    destruct (N.eqb_spec z x0) as [->|_]; [exfalso; apply Hx; right; left; reflexivity|].
+    apply IH; [exact C| |exact Nd'|cbn in *; lia].
+    intros Hi. apply Hx. right. exact Hi.
+Qed.
+
+(* second loop along a chain ending in the representative *)
+Lemma compress_cycle r : forall y c t fuel, Chain c (y :: r) t -> NoDup (y :: r) ->
+  length (y :: r) <= fuel ->
+  compress fuel c y (lst y r) =
+  Ok (fold_left (fun c w => set_at w (lst y r) c) (allbut y r) c).
+Proof.
+  induction r as [|z r IH]; intros y c t fuel C Nd Hf.
+  - destruct fuel as [|f]; [cbn in Hf; lia|]. cbn [compress lst allbut fold_left].
+    rewrite N.eqb_refl. reflexivity.
+  - destruct fuel as [|f]; [cbn in Hf; lia|]. cbn [Chain] in C. destruct C as [G C].
+    inversion Nd as [|? ? Hy Nd']; subst. cbn [compress lst allbut fold_left].
+    destruct (N.eqb_spec y (lst z r)) as [Heq|_].
+    { exfalso. apply Hy. rewrite Heq. apply lst_in. }
+    rewrite G. apply IH with (t := t); [|exact Nd'|cbn in *; lia].
+    apply chain_set_other; assumption.
+Qed.
+
+Lemma fold_set_get L l : forall (c : uf) z, (forall w, In w l -> get w c <> None) ->
+  get z (fold_left (fun c w => set_at w L c) l c) = if mem z l then Some L else get z c.
+Proof.
+  induction l as [|w r IH]; intros c z Hall; cbn [fold_left]; [reflexivity|].
+  rewrite IH.
+  - unfold mem. cbn [existsb]. fold (mem z r). rewrite get_set_at.
+    destruct (mem z r); [rewrite orb_true_r; reflexivity|]. rewrite orb_false_r.
+    destruct (N.eqb z w); [|reflexivity].
+    destruct (get w c) eqn:G; [reflexivity|]. exfalso. apply (Hall w); [left; reflexivity|exact G].
+  - intros v Hv. rewrite get_set_at. destruct (N.eqb v w).
+    + destruct (get w c) eqn:G; [discriminate|]. exfalso. apply (Hall w); [left; reflexivity|exact G].
+    + apply Hall. right. exact Hv.
+Qed.
+
+Lemma chain_set_last s v r : forall y t, NoDup (y :: r) -> Chain s (y :: r) t ->
+  Chain (set_at (lst y r) v s) (y :: r) v.
+Proof.
+  induction r as [|z r IH]; intros y t Nd C.
+  - cbn [Chain lst] in *. rewrite get_set_at, N.eqb_refl, C. reflexivity.
+  - cbn [Chain] in C. destruct C as [G C]. inversion Nd as [|? ? Hy Nd']; subst.
+    change (Chain (set_at (lst z r) v s) (y :: z :: r) v).
+    cbn [Chain]. split; [|exact (IH z t Nd' C)].
+    rewrite get_set_at. destruct (N.eqb_spec y (lst z r)) as [Heq|_]; [|exact G].
+    exfalso. apply Hy. rewrite Heq. apply lst_in.
+Qed.
+
+Theorem find_pure_cycle s x0 x1 r fuel :
+  NoDup (x0 :: x1 :: r) -> Chain s (x0 :: x1 :: r) x0 -> length (x0 :: x1 :: r) < fuel ->
+  let L := lst x1 r in
+  exists s', find fuel s x0 = Ok (L, s') /\ length s' = length s /\ (forall z, In z (x0 :: x1 :: r) -> get z s' = Some L) /\ (forall z, ~ In z (x0 :: x1 :: r) -> get z s' = get z s).
+Proof.
+  intros Nd C Hf. cbv zeta. pose proof C as C0. cbn [Chain] in C. destruct C as [G0 C].
+  inversion Nd as [|? ? H0 Nd1]; subst.
+  destruct fuel as [|f]; [cbn in Hf; lia|].
+  assert (FR : find_root (S f) s x0 x0 = Ok (lst x1 r, set_at (lst x1 r) (lst x1 r) s)).
+  { cbn [find_root]. rewrite G0.
+    destruct (N.eqb_spec x1 x0) as [->|_]; [exfalso; apply H0; left; reflexivity|].
+    apply find_root_cycle; [exact C|exact H0|exact Nd1|cbn in *; lia]. }
+  unfold find. rewrite FR. cbn [bind fst snd].
+  set (L := lst x1 r) in *. set (s1 := set_at L L s).
+  assert (HL : In L (x1 :: r)) by apply lst_in.
+  assert (C1 : Chain s1 (x0 :: x1 :: r) L) by exact (chain_set_last s L (x1 :: r) x0 x0 Nd C0).
+  assert (CC := compress_cycle (x1 :: r) x0 s1 L (S f) C1 Nd).
+  change (lst x0 (x1 :: r)) with L in CC. rewrite CC by (cbn in *; lia).
+  cbn [bind fst].
+  set (ab := allbut x0 (x1 :: r)).
+  assert (Hall : forall w, In w ab -> get w s1 <> None).
+  { intros w Hw. apply (chain_has_entry s1 _ _ C1). apply allbut_in, Hw. }
+  assert (GL : get L s1 = Some L).
+  { unfold s1. rewrite get_set_at, N.eqb_refl.
+    destruct (get L s) eqn:G; [reflexivity|]. exfalso.
+    apply (chain_has_entry s _ _ C0 L); [right; exact HL|exact G]. }
+  eexists. split; [reflexivity|]. split; [|split].
+  - assert (LS : forall l (c : uf), length (fold_left (fun c w => set_at w L c) l c) = length c).
+    { induction l as [|w l IH]; intros c; cbn [fold_left]; [reflexivity|]. rewrite IH.
+      rewrite <- (map_length fst (set_at w L c)), <- (map_length fst c).
+      change (length (keys (set_at w L c)) = length (keys c)). rewrite keys_set_at. reflexivity. }
+    rewrite LS. unfold s1.
+    rewrite <- (map_length fst (set_at L L s)), <- (map_length fst s).
+    change (length (keys (set_at L L s)) = length (keys s)). rewrite keys_set_at. reflexivity.
+  - intros z Hz. rewrite (fold_set_get L ab s1 z Hall).
+    destruct (mem z ab) eqn:M; [reflexivity|].
+    destruct (allbut_or_lst (x1 :: r) x0 z Hz) as [Hi|Heq].
+    + apply mem_In in Hi. fold ab in Hi. congruence.
+    + change (lst x0 (x1 :: r)) with L in Heq. subst z. exact GL.
+  - intros z Hz. rewrite (fold_set_get L ab s1 z Hall).
+    assert (M : mem z ab = false).
+    { apply mem_false. intros Hi. apply Hz. apply allbut_in in Hi. exact Hi. }
+    rewrite M. unfold s1. rewrite get_set_at.
+    destruct (N.eqb_spec z L) as [->|_]; [|reflexivity]. exfalso. apply Hz. right. exact HL.
+Qed.
+
+(* after that, everybody in the cycle answers `same` with everybody else *)
+Lemma find_star c z L fuel : get z c = Some L -> get L c = Some L -> 2 <= fuel ->
+  exists c', find fuel c z = Ok (L, c') /\ length c' = length c.
+Proof.
+  intros Gz GL Hf. destruct fuel as [|[|f]]; try lia. unfold find.
+  destruct (N.eq_dec z L) as [->|Hne].
+  - cbn [find_root]. rewrite GL, N.eqb_refl. cbn [bind fst snd compress]. rewrite N.eqb_refl.
+    cbn [bind]. eauto.
+  - cbn [find_root]. rewrite Gz.
+    destruct (N.eqb_spec L z) as [Heq|_]; [congruence|]. rewrite GL, N.eqb_refl.
+    cbn [bind fst snd compress].
+    destruct (N.eqb_spec z L) as [Heq|_]; [congruence|]. rewrite Gz, N.eqb_refl. cbn [bind].
+    eexists. split; [reflexivity|].
+    rewrite <- (map_length fst (set_at z L c)), <- (map_length fst c).
+    change (length (keys (set_at z L c)) = length (keys c)). rewrite keys_set_at. reflexivity.
+Qed.
+
+Theorem same_pure_cycle s x0 x1 r z :
+  NoDup (x0 :: x1 :: r) -> Chain s (x0 :: x1 :: r) x0 -> In z (x0 :: x1 :: r) ->
+  exists s', same s x0 z = Ok (s', true).
+Proof.
+  intros Nd C Hz. unfold same. destruct (N.eqb_spec x0 z) as [_|Hne]; [eauto|].
+  assert (Len : length (x0 :: x1 :: r) <= length s).
+  { rewrite <- (map_length fst s). apply NoDup_incl_length; [exact Nd|].
+    intros w Hw. pose proof (chain_has_entry s _ _ C w Hw) as G.
+    destruct (get w s) as [p|] eqn:Gw; [|congruence].
+    apply get_In in Gw. apply (in_map fst) in Gw. exact Gw. }
+  destruct (find_pure_cycle s x0 x1 r (dfuel s) Nd C) as [s1 [E1 [L1 [In1 _]]]].
+  { unfold dfuel. lia. }
+  cbv zeta in E1. rewrite E1. cbn [bind fst snd].
+  destruct (find_star s1 z (lst x1 r) (dfuel s1)) as [s2 [E2 _]].
+  - apply In1, Hz.
+  - apply In1. right. apply lst_in.
+  - unfold dfuel. rewrite L1. cbn in Len. lia.
+  - rewrite E2. cbn [bind fst snd]. rewrite N.eqb_refl. eauto.
 Qed.
